@@ -12,6 +12,10 @@
 (* Cartesian textbook forms of low-order terms, linearity of Eval, L/d.       *)
 (* The "gen" configuration prints the index lists, coefficient vectors and    *)
 (* exact radial values at r = k/8 for the replay into the implementation.     *)
+(* (State variables are deliberately not called i, j: a variable that shares *)
+(* its name with an operator parameter of an extended module makes TLC stop  *)
+(* caching lazy values - measured 100x slower.  TLC also re-evaluates the     *)
+(* constant definitions once per worker: run with -workers 4.)               *)
 EXTENDS Zernike
 VARIABLES zfam, zi, zj
 vars == <<zfam, zi, zj>>
